@@ -1,6 +1,6 @@
-\* double mutations (used with -simulate, fixed seed)
+\* double mutations: two insertions of state-changing atoms at the same / neighbouring position
 CONSTANTS K = 0  Alphabet <- CoreAtoms  NSeeds <- NSeedsImpl  SeedTok <- SeedTokImpl  SeedDelims <- SeedDelimsImpl  MaxOps = 2  Q = 1
 INIT MutInit
-NEXT MutNext
+NEXT PairNext
 INVARIANT PrintMut
 CHECK_DEADLOCK FALSE
